@@ -310,6 +310,20 @@ def prove(ctx, modules, theorems):
             allok = False
             why = blamed.get(th) or (("its module no longer builds: " + build_detail) if build_detail else ("theorem not found / audit failed: " + out[-400:]))
             ctx.obligations.append((th, False, why))
+    if ctx.thorough():
+        # independent re-check of the compiled proofs with the toolchain's external checker
+        lock = _lake_lock()
+        try:
+            p = subprocess.run(["lake", "env", "leanchecker"] + list(modules), cwd=LEAN_DIR, stdout=subprocess.PIPE,
+                               stderr=subprocess.STDOUT, text=True, timeout=1800)
+            okc = p.returncode == 0
+            ctx.obligations.append(("leanchecker " + " ".join(modules), okc, "re-checked by leanchecker" if okc else p.stdout[-400:]))
+            allok = allok and okc
+        except Exception as e:      # noqa
+            ctx.obligations.append(("leanchecker", False, "leanchecker did not run: %s" % e))
+            allok = False
+        finally:
+            lock.close()
     hits = grep_forbidden(modules)
     if hits:
         allok = False
